@@ -224,3 +224,6 @@ META = dict(
     assumptions=["K = max(warm-up index, period / length parameter) + 2 is at least the look-back any shipped indicator needs (a larger K narrows the claim, never raises an alarm)"],
     explanation="retained timestamps decided against the window definition for all timestamp patterns; retained readings term-compared with an untrimmed twin for all candle values",
 )
+
+# families added after the seeding rounds (kept next to the original bound so that MANIFEST / evidence stay current)
+META["bounds"] = dict(META["bounds"], quick=META["bounds"]["quick"] + "; added after the seeding rounds: " + 'window clause over a gap-filled T5 (1-3 buckets), 25-hour and 3-day lifespans, 26 concrete sub-second stamps with a 10-second lifespan; look-back K = max(warm-up, period/length)+2')
